@@ -18,12 +18,18 @@ IsStr(v) == v.k = "str"
 \* rx.t2 # "": the regex is  <t> whitespace <t2>  - the two tokens adjacent, in this order, inside this one value
 TokMatch(w, t, c, ic) == w.t = t /\ (ic \/ w.c = c)
 \* rx.opt: the regex is  (<t>)?  - it is found in every string, the empty one included
-Contains(v, rx, ic) == IF rx.opt THEN TRUE ELSE IF rx.t2 = "" THEN \E w \in SeqSet(v.toks) : TokMatch(w, rx.t, rx.c, ic)
+\* rx.sp: blanks in the regex are part of it - "only": the regex is one blank (found wherever two tokens meet);
+\* "trail" / "lead": the token followed / preceded by a blank (the token is not the last / not the first of the value)
+Contains(v, rx, ic) == IF rx.opt THEN TRUE
+                       ELSE IF rx.sp = "only" THEN Len(v.toks) >= 2
+                       ELSE IF rx.sp = "trail" THEN \E i \in 1..(Len(v.toks) - 1) : TokMatch(v.toks[i], rx.t, rx.c, ic)
+                       ELSE IF rx.sp = "lead" THEN \E i \in 2..Len(v.toks) : TokMatch(v.toks[i], rx.t, rx.c, ic)
+                       ELSE IF rx.t2 = "" THEN \E w \in SeqSet(v.toks) : TokMatch(w, rx.t, rx.c, ic)
                        ELSE \E i \in 1..(Len(v.toks) - 1) : TokMatch(v.toks[i], rx.t, rx.c, ic) /\ TokMatch(v.toks[i + 1], rx.t2, rx.c, ic)
 Selected(rule, e) == IF rule.hs /\ rule.sk # <<>>
                      THEN {e.data[k] : k \in SeqSet(rule.sk) \cap Keys(e)}      \* missing keys select nothing
                      ELSE {e.data[k] : k \in Keys(e)}
-Matches(rule, e) == rule.rx.t # "" /\ \E v \in Selected(rule, e) : IsStr(v) /\ Contains(v, rule.rx, rule.ic)
+Matches(rule, e) == (rule.rx.t # "" \/ rule.rx.sp = "only") /\ \E v \in Selected(rule, e) : IsStr(v) /\ Contains(v, rule.rx, rule.ic)
 
 \* categorize: the deepest matching category, the later rule wins ties, Uncategorized when nothing matches
 Uncategorized == <<"Uncategorized">>
